@@ -322,6 +322,7 @@ _FLOATFN = {
     "sqrt": math.sqrt,
     "atan2": math.atan2,
     "abs": abs,
+    "nonneg": lambda x: x,
 }
 
 
@@ -342,6 +343,8 @@ def fn(name, *xs):
             return Fraction(0)
         if name == "abs":
             return abs(xs[0])
+        if name == "nonneg":
+            return xs[0]
         if name == "atan2" and xs[0] == 0 and xs[1] > 0:
             return Fraction(0)
         if name == "sqrt" and xs[0] >= 0:
